@@ -54,17 +54,18 @@ const (
 )
 
 type env struct {
-	spec  *RunSpec
-	bind  *Binding
-	ctx   *simrt.Ctx
-	prog  *sdl.Program
-	objs  map[string]any
-	ptrID map[ptrKey]string
-	subs  map[string]any
-	hands map[string]*simrt.Handle
-	obs   *model.Obs
-	names map[string]string // registered name -> instance id (first owner)
-	scans map[string]*simrt.TagScanner
+	spec   *RunSpec
+	bind   *Binding
+	ctx    *simrt.Ctx
+	prog   *sdl.Program
+	objs   map[string]any
+	ptrID  map[ptrKey]string
+	subs   map[string]any
+	freshN map[string]int
+	hands  map[string]*simrt.Handle
+	obs    *model.Obs
+	names  map[string]string // registered name -> instance id (first owner)
+	scans  map[string]*simrt.TagScanner
 	// initLookups: holder -> "@init:<target id>" -> what the lookup from inside Init returned
 	initLookups map[string]map[string][]string
 }
@@ -427,6 +428,10 @@ func Run(t *testing.T, bind *Binding, spec *RunSpec) (obs *model.Obs) {
 	ch.KeepSites = spec.KeepSites
 	ctx := simrt.NewCtx(ch)
 	ctx.Parallel = spec.Parallel
+	if len(spec.Faults) != 0 {
+		// the shape of the injected errors is a function of the fault plan (replayable)
+		ctx.ErrShape = int(hash64("err-shape", strings.Join(spec.Faults, ","), spec.Prog.Seed) % simrt.ErrShapes)
+	}
 	ctx.NoSched = spec.Parallel && spec.Free
 	// event budget: generous multiple of what a start of this size needs (a fault-free
 	// start logs a few dozen events per component)
@@ -436,7 +441,7 @@ func Run(t *testing.T, bind *Binding, spec *RunSpec) (obs *model.Obs) {
 		ctx.Armed[f] = true
 	}
 	e := &env{spec: spec, bind: bind, ctx: ctx, prog: spec.Prog, objs: map[string]any{}, ptrID: map[ptrKey]string{},
-		subs: map[string]any{}, hands: map[string]*simrt.Handle{}, obs: obs, names: map[string]string{}, scans: map[string]*simrt.TagScanner{}, initLookups: map[string]map[string][]string{}}
+		subs: map[string]any{}, freshN: map[string]int{}, hands: map[string]*simrt.Handle{}, obs: obs, names: map[string]string{}, scans: map[string]*simrt.TagScanner{}, initLookups: map[string]map[string][]string{}}
 	syslog.SetLogger(simrt.SilentLogger{})
 
 	defer func() {
@@ -618,6 +623,12 @@ func (e *env) main(inClose, closeReturned *bool) {
 			}
 			for _, r := range pr.Rules {
 				if r.Target == tgt.ID && r.At == cb && r.Action == "substitute" {
+					if r.Fresh {
+						e.freshN[r.Sub]++
+						if n := e.freshN[r.Sub]; n > 1 {
+							return e.substitute(fmt.Sprintf("%s#%d", r.Sub, n), tgt, r.SubType)
+						}
+					}
 					return e.substitute(r.Sub, tgt, r.SubType)
 				}
 				if r.Target == tgt.ID && r.At == cb && r.Action == "self" && cb == sdl.CbBeforeInst {
@@ -741,7 +752,9 @@ func (e *env) main(inClose, closeReturned *bool) {
 	obs.CfgAtBefore = map[string]map[string]string{}
 	if !spec.Parallel {
 		ctx.Hook = func(kind, subj string, obj any) {
-			if kind != "before" || obj == nil {
+			// the first moment of a component's initialization: its first before-initialization
+			// callback, or (without user processors) its AfterPropertiesSet / Init
+			if (kind != "before" && kind != "aps" && kind != "init") || obj == nil {
 				return
 			}
 			v := reflect.ValueOf(obj)
